@@ -451,8 +451,19 @@ func (c *Ctx) flagMeansCodeOnLine(v ssa.Value, fn *ssa.Function, isLineOfComment
 // ---------------------------------------------------------------------------------------------
 // REPORT-GATE, FORMAT
 
-func (c *Ctx) ruleReportGate() {
+func (c *Ctx) ruleReportGate(onlyPkgs ...string) {
 	P := c.P
+	wantPkg := func(p string) bool {
+		if len(onlyPkgs) == 0 {
+			return true
+		}
+		for _, x := range onlyPkgs {
+			if x == p {
+				return true
+			}
+		}
+		return false
+	}
 	var reports []ssa.CallInstruction
 	for _, fn := range P.ModFuncs {
 		allInstrs(fn, func(b *ssa.BasicBlock, ins ssa.Instruction) {
@@ -539,6 +550,9 @@ func (c *Ctx) ruleReportGate() {
 	}
 	// GetCode/GetPos of every violation type
 	for _, vt := range c.M.VTypes {
+		if !wantPkg(vt.Pkg) {
+			continue
+		}
 		tn := vt.Pkg + "." + vt.Named.Obj().Name()
 		okC := false
 		if vt.GetCode != nil {
@@ -578,6 +592,9 @@ func (c *Ctx) ruleReportGate() {
 			nNR++
 			a := call.Call.Args[1]
 			pkg := strings.Split(FuncName(fn), ".")[0]
+			if !wantPkg(pkg) {
+				return
+			}
 			if P.RootsAll(a, isNilConst) {
 				// every site of this package must be gated at detection time
 				okAll := true
